@@ -40,6 +40,9 @@ def evaluate(rep: Report, results: List[Dict[str, Any]], props: Sequence[str], a
         eng = [c for c in r["clauses"] if c["prop"] == "ENGINE"]
         for c in eng:
             rep.broken.append(f"cell {r['id']}: {c['clause']}: {c['detail'][:300]}")
+        for c in r["clauses"]:
+            if c["prop"] == "TIMEOUT":
+                rep.undecided.append(f"cell {r['id']}: {c['detail']}")
         build = [c for c in r["clauses"] if c["prop"] == "BUILD"]
         sg = sig_of(cell)
         rep.bounded({"cell": r["id"], **sg}, nontrivial(cell), evals=max(1, len(mine)))
